@@ -273,13 +273,13 @@ def specs(tier):
                              + ("; second role runs atomically at any conflicting visible operation of the first (context bound A|B|A)" if len(roles) == 2 else ""),
                         bounds={"n": N, "locations": 1, "threads": len(roles), "memory_model": "SC", "context_switches": 2 if len(roles) == 2 else 0}))
     if tier == "thorough":
-        for roles in (["F", "R"],):
+        for roles in (["F", "R"], ["F", "V"]):
             nm = "".join(roles)
             out.append(Spec(f"step_{nm}_n{N}", build(N, roles), cfg=cfg(N, rounds="inject"), unwind=N + 3, timeout=5400,
                             desc=f"roles {' || '.join(roles)}; second role atomic at any conflicting visible operation of the first",
                             bounds={"n": N, "locations": 1, "threads": 2, "context_switches": 2}))
     if tier == "experimental":
-        for roles in (["F", "V"], ["V", "R"], ["R", "V"]):
+        for roles in (["V", "R"], ["R", "V"]):
             nm = "".join(roles)
             out.append(Spec(f"step_{nm}_n{N}", build(N, roles), cfg=cfg(N, rounds="inject"), unwind=N + 3, timeout=14000,
                             desc=f"roles {' || '.join(roles)}", bounds={"n": N, "locations": 1, "threads": 2, "context_switches": 2}))
